@@ -68,7 +68,7 @@ def main():
             if r.returncode >= 2:
                 res["checks"][c]["tail"] = (r.stdout + r.stderr)[-500:]
         res["valid_seed"] = (res["demo_clean_exit"] == 0 and res["demo_patched_exit"] != 0 and res.get("baseline_ok", True))
-        res["caught"] = any(v["exit"] == 1 for v in res["checks"].values())
+        res["caught"] = any(v["exit"] == 1 and v["violation_lines"] >= 1 for v in res["checks"].values())
     finally:
         shutil.rmtree(S, ignore_errors=True)
     print(json.dumps(res, indent=1))
